@@ -110,6 +110,41 @@ delta_unsigned!(c15_delta_unsigned_n1, 1);
 //@ oracle: decode(encode(v)) == v for both codecs, len agrees, bytes round trip
 delta_unsigned!(c15_delta_unsigned_n2, 2);
 
+macro_rules! dbp_bytes { ($name:ident, $n:expr) => {
+    #[kani::proof]
+    #[kani::unwind(20)]
+    fn $name() {
+        let v: [u64; $n] = kani::any();
+        let mut i = 1; while i < $n { kani::assume(v[i - 1] <= v[i]); i += 1; }
+        let p = DeltaBitPacked::encode(&v);
+        let bytes = p.to_bytes();
+        let q = DeltaBitPacked::from_bytes(&bytes).unwrap();
+        assert!(q.len() == $n && q.is_empty() == ($n == 0), "length changed by the byte round trip");
+        assert!(q.base() == p.base() && q.bits_per_delta() == p.bits_per_delta(), "header changed by the byte round trip");
+        assert!(eq_u64(&q.decode(), &v), "decode after the byte round trip differs from the input");
+        kani::cover!($n == 0 || v[0] == 0);
+        std::mem::forget((p, bytes, q));
+    }
+} }
+//@ property: C15
+//@ tier: quick
+//@ cap_s: 300
+//@ unwind: 20
+//@ encodes: DeltaBitPacked::{encode,to_bytes,from_bytes,len,is_empty,base,bits_per_delta,decode}, BitPackedInts::{pack,to_bytes,from_bytes}
+//@ symbolic: nothing (the empty sequence)
+//@ bound: n = 0
+//@ oracle: serialising the encoded block to bytes and back changes nothing (length, emptiness, header, decoded sequence)
+dbp_bytes!(c15_deltabitpacked_bytes_n0, 0);
+//@ property: C15
+//@ tier: quick
+//@ cap_s: 300
+//@ unwind: 20
+//@ encodes: DeltaBitPacked::{encode,to_bytes,from_bytes,len,is_empty,base,bits_per_delta,decode}, BitPackedInts::{pack,to_bytes,from_bytes}
+//@ symbolic: 1 u64 (all values; the sequence [0], whose only difference from [] is the bit width of its empty delta block, included)
+//@ bound: n = 1 (n = 2 exhausted 20 GB: the delta width becomes a symbolic divisor in from_bytes)
+//@ oracle: serialising the encoded block to bytes and back changes nothing (length, emptiness, header, decoded sequence)
+dbp_bytes!(c15_deltabitpacked_bytes_n1, 1);
+
 //@ property: C15
 //@ tier: quick
 //@ cap_s: 120
@@ -294,9 +329,10 @@ macro_rules! rle_bytes { ($name:ident, $n:expr, $u:expr) => {
 //@ property: C15
 //@ tier: thorough
 //@ optional: yes
-//@ cap_s: 400
+//@ cap_s: 900
+//@ cbmc_args: --max-field-sensitivity-array-size 4096
 //@ unwind: 4
-//@ mem_gb: 14
+//@ mem_gb: 24
 //@ encodes: RunLengthEncoding::{encode,decode,total_count,run_count}
 //@ symbolic: 2 arbitrary u64 (both run structures of length 2)
 //@ bound: n = 2
@@ -315,9 +351,10 @@ rle_access!(c15_rle_access_n2, 2, 4);
 //@ property: C15
 //@ tier: thorough
 //@ optional: yes
-//@ cap_s: 400
+//@ cap_s: 900
+//@ cbmc_args: --max-field-sensitivity-array-size 4096
 //@ unwind: 4
-//@ mem_gb: 14
+//@ mem_gb: 24
 //@ encodes: RunLengthEncoding::{encode,to_bytes,from_bytes,from_runs,get,total_count,run_count}
 //@ symbolic: 2 arbitrary u64
 //@ bound: n = 2
@@ -327,8 +364,9 @@ rle_bytes!(c15_rle_bytes_n2, 2, 4);
 //@ property: C15
 //@ tier: thorough
 //@ optional: yes
-//@ mem_gb: 14
-//@ cap_s: 400
+//@ mem_gb: 24
+//@ cap_s: 900
+//@ cbmc_args: --max-field-sensitivity-array-size 4096
 //@ encodes: SignedRunLengthEncoding::{encode,decode,run_count}, runlength::zigzag_*
 //@ symbolic: 2 i64 (all values)
 //@ bound: n = 2
